@@ -40,6 +40,8 @@ CHECKS = {
                 note="Trusted: zipfile, lxml, the white-space reading of mc/models/odfws.py. Flat XML compared on paragraph texts only."),
     "C15": dict(tech=ENUM, ref="5/C15", text="Every read-only entry point found by introspection (public properties; methods named get_*/is_*/search*/match/text_at/*_text/to_*/as_*/show_*/iter_*/traverse*/serialize/__str__, replace(pattern) without replacement) of Document, body, meta, manifest, styles, content and of one instance of every element class present, on every bounded-size document (generated documents with run-length encoded tables / notes / TOC / lists / frames, the adjacency document, templates, samples), called twice: every parsed part and container part digested before/after each call, second answer equal to the first; exporters in A,B,A order across documents.",
                 note="Trusted: lxml. Lazily loading a part is not a change. Create-on-demand getters (get_variable_decls, get_user_field_decls) excluded by contract."),
+    "C18": dict(tech=ENUM, ref="5/C18", text="Date: every day of the listed years (all years 1..9999 in thorough); DateTime: year x day x time x microsecond x zone lattice; Duration: every whole second of [-2 d, +2 d] (10 d thorough) plus a magnitude lattice; colours: every (r,g,b) of listed red ranges (all 2^24 thorough), lattice, CSS names; Boolean and Unit lattices; decode(encode(v)) == v and the encoding matches the ODF lexical regex; rejection: every single-character edit of valid encodings must raise or return what an independent lenient ISO-8601 reading assigns.",
+                note="Trusted: CPython datetime. Date.decode returning a datetime for a date is documented and accepted. 'Randomly inside' is not done."),
 }
 
 NOT_YET = {}
